@@ -9,13 +9,17 @@ def inv(a, p):
     return pow(a, -1, p)
 
 
-def build(env, ctx, pk, gens, es, label, perm, rng, mode="honest", surplus=1, outputs=None, matrix_rows=None):
+def build(env, ctx, pk, gens, es, label, perm, rng, mode="honest", surplus=1, outputs=None, matrix_rows=None, tamper=None, info=None):
     """Returns (outputs e', proof_bytes_hex). Modes:
        honest            — a correct proof for a correct shuffle (control)
        surplus_t_hats    — honest shuffle; `surplus` extra chain proof-commitments are committed BEFORE the challenge
        break_eq:<k>      — honest shuffle; commitment t<k> (1,2,3,41,42) is multiplied by g before the challenge: every equation
                            but that one holds
        break_chain:<i>   — same for chain proof-commitment i
+       tamper=(a, b, X)  — output a has its first component multiplied by X and output b divided by X (no longer a re-encrypted
+                           permutation); the prover then proceeds as if nothing happened. Every equation still holds exactly when
+                           the per-ciphertext challenges of outputs a and b coincide.
+       info              — dict that receives the implementation's per-ciphertext challenges ("us")
     """
     P, q, g = pq(ctx); fl = ctx[0]
     pkv = int(pk); h0 = int(gens[0]); hs = [int(x) for x in gens[1:]]
@@ -24,6 +28,9 @@ def build(env, ctx, pk, gens, es, label, perm, rng, mode="honest", surplus=1, ou
     rr = [rng.randrange(q) for _ in range(N)]
     reenc = [((a * pow(pkv, r, P)) % P, (b * pow(g, r, P)) % P) for (a, b), r in zip(E, rr)]
     out = [reenc[i] for i in perm]
+    if tamper is not None:
+        ta, tb, tx = tamper
+        out[ta] = ((out[ta][0] * tx) % P, out[ta][1]); out[tb] = ((out[tb][0] * inv(tx, P)) % P, out[tb][1])
     rc = [rng.randrange(q) for _ in range(N)]
     cs = [0] * N; rsp = [0] * N
     for i in range(N):
@@ -32,6 +39,8 @@ def build(env, ctx, pk, gens, es, label, perm, rng, mode="honest", surplus=1, ou
     es_j = [[S(a), S(b)] for a, b in E]; out_j = [[S(a), S(b)] for a, b in out]
     us = env.harness([{"ctx": ctx, "op": "shuffle_us", "args": [pk, es_j, out_j, [S(c) for c in cs], S(N), label], "tag": "forger-us"}])[0]
     us = [int(u) for u in us]
+    if info is not None:
+        info["us"] = us
     up = [us[perm[i]] for i in range(N)]
     rh = [rng.randrange(q) for _ in range(N)]
     ch = []; prev = h0
